@@ -9,18 +9,19 @@ import (
 // rsSummary is what C15's last sentence quantifies over: height, round, step, lock and
 // vote sets a node had reached.
 type rsSummary struct {
-	h        int64
-	r        int32
-	step     cstypes.RoundStepType
-	lockedR  int32
-	lockedH  string
-	votes    map[string]string // "round/type" -> bit array string
+	h       int64
+	r       int32
+	step    cstypes.RoundStepType
+	lockedR int32
+	lockedH string
+	votes   map[string]string // "round/type" -> bit array string
 	// the incarnation that reached this state had repaired its WAL at start: OnStart then
 	// replays the WAL a second time over the state left by the first pass
 	afterRepair bool
 	// the incarnation that reached this state had started without the end-of-height marker of
 	// the previous height in its WAL and is still in the height it started in
-	noMarker bool
+	noMarker  bool
+	markerCut bool
 }
 
 func summarize(rs *cstypes.RoundState) *rsSummary {
@@ -57,6 +58,11 @@ func (m *monitor) checkReplayedState(n *simNode) {
 	}
 	if rs.Height < d.h {
 		e.Fail("C15", "replay-height-regressed", "node %d restarted at height %d although its synced WAL had reached height %d", n.idx, rs.Height, d.h)
+	}
+	if d.markerCut && n.noMarkerAtBoot && rs.Height == d.h && (rs.Round < d.r || (rs.Round == d.r && rs.Step < d.step)) {
+		// known finding (KNOWN_FINDINGS.txt)
+		e.Fail("C15", "replay-regressed-marker-cut-by-repair-at-older-tear", "node %d restarted at %d/%d/%d; an earlier start that could not replay left a torn tail in the WAL head, #ENDHEIGHT %d and the records of height %d were appended behind it, and a later repair cut the head at the old tear: the previous incarnation had reached %d/%d/%d, none of which the WAL can give back", n.idx, rs.Height, rs.Round, rs.Step, d.h-1, d.h, d.h, d.r, d.step)
+		return
 	}
 	if d.noMarker && n.noMarkerAtBoot && rs.Height == d.h && (rs.Round < d.r || (rs.Round == d.r && rs.Step < d.step)) {
 		// known finding (KNOWN_FINDINGS.txt)
